@@ -316,6 +316,23 @@ def run(ctx: Ctx):
     pr, pg = pad_cmp(r.node), (pad_cmp(gfi.node) if gfi is not None else None)
     ctx.ob("C19.c", "fjsp:pad_mask-comparison", pr == "ge" and pg == "ge", r.loc,
            f"reader: arange(max_ops).{pr}(total_ops); generator: .{pg}(n_ops): padding starts exactly at the first index after the real operations", construct="fjsp.parser:pad-mask")
+    # the reader computes the job spans with the generator's formulas (C18.k proves them for the generators): end = cumsum(n_ops) - 1,
+    # start = cat((0, end[:-1] + 1)) -- a span shifted by one hands every job the first operation of its successor
+    from .C18 import job_span_forms
+    itr = vg.Interp(ctx.repo, None, inline_policy=lambda f, a: False)
+    frr = itr.run_function(r)
+    rt = frr.ret
+    rtd = rt.items[0] if isinstance(rt, vg.Tup) and rt.items and isinstance(rt.items[0], vg.TD) else (rt if isinstance(rt, vg.TD) else None)
+    if rtd is None or "end_op_per_job" not in rtd.cells or "start_op_per_job" not in rtd.cells:
+        raise AnalysisError("fjsp.parser.read: returned TensorDict with start/end_op_per_job not resolved")
+    ok_end, cum, pe_, ok_st, why_st = job_span_forms(rtd.cells["end_op_per_job"], rtd.cells["start_op_per_job"])
+    cnt_ok = False
+    if cum is not None:
+        src = nf.strip(cum.args[0] if cum.op == "meth" else cum.args[1])
+        # the counts are the lengths of the parsed jobs: len(x) over the list of jobs
+        cnt_ok = any(nf._fn(n_) == "len" for n_ in vg.walk(src))
+    ctx.ob("C19.c", "fjsp-parser:job-spans", bool(ok_end and ok_st and cnt_ok), r.loc,
+           f"end_op_per_job = cumsum(operations per parsed job) - 1: {ok_end} (counts are len(job): {cnt_ok}); {why_st}", construct="fjsp.parser:job-spans")
     # ---------------- d: pickle hooks
     base = ctx.repo.get_class("rl4co/envs/common/base.py", "RL4COEnvBase")
     gs, ss = base.methods["__getstate__"], base.methods["__setstate__"]
